@@ -23,8 +23,6 @@ import (
 	"github.com/shopspring/decimal"
 )
 
-var weiPerETH = decimal.New(1e18, 0)
-
 // RelayConfig contains configuration for a relay.
 type RelayConfig struct {
 	Address      string
@@ -56,7 +54,7 @@ func (r *RelayConfig) MarshalJSON() ([]byte, error) {
 	}
 	var minValue string
 	if !r.MinValue.Equal(decimal.Zero) {
-		minValue = fmt.Sprintf("%v", r.MinValue.Div(weiPerETH))
+		minValue = fmt.Sprintf("%v", r.MinValue.Shift(-18))
 	}
 	return json.Marshal(&relayConfigJSON{
 		Address:      r.Address,
